@@ -714,6 +714,13 @@ package whispertool
 //@   ensures out_last: archiveID + 1 == len(w.header.archiveInfoList) ==> len(propagatedTs) == 0
 //@   ensures out_aligned: archiveID + 1 < len(w.header.archiveInfoList) ==> forall j :: 0 <= j && j < len(propagatedTs) ==> alignedTo(propagatedTs[j], stepOf(w, archiveID + 1))
 //@   ensures out_fresh: len(propagatedTs) == 0 || fresh(propagatedTs)
+//@   assert[C02] stored: p.Time == t && bits(p.Value) == bits(callret(aggregate, 0))
+//@                 && callarg(aggregate, 0) == w.header.aggregationMethod && callarg(aggregate, 1) === values
+//@                 && values === callret(filterValidValues, 0) && callarg(filterValidValues, 0) === points && callarg(filterValidValues, 1) == t
+//@                 && points === callret("(*Whisper).fetchRawPoints", 0) && callarg("(*Whisper).fetchRawPoints", 1) == archiveID - 1
+//@                 && callarg("(*Whisper).fetchRawPoints", 2) == t && callarg("(*Whisper).fetchRawPoints", 3) == t + stepOf(w, archiveID)
+//@                 && offset == callret("(*Whisper).getPointOffset", 0) && callarg("(*Whisper).getPointOffset", 1) == t
+//@                 && len(values) > 0 && !fplt(tofp32(len(values)) / tofp32(len(points)), w.header.xFilesFactor) before (*Whisper).putPointAt
 //@ loop (*Whisper).propagate#0
 //@   invariant bounds: 0 <= iter && iter <= len(ts)
 //@   invariant frame: forall k :: (k < archOf(w, archiveID).offset || k >= archOf(w, archiveID).offset + 12 * countOf(w, archiveID)) ==> fbyte(w.fileBuf, k) == old(fbyte(w.fileBuf, k))
@@ -1104,6 +1111,7 @@ package whispertool
 //@   props C19 C12 C16
 //@   ensures kind: result1 == nil || isother(result1)
 //@   check[C19] exact: result1 == nil ==> (ghost(tzero, t) == 1 && result0 == 0) || result0 == ghost(unix, t)
+//@   check[C19] complete: callret(Parse, 1) == nil && (ghost(tzero, t) == 1 || (0 <= ghost(unix, t) && ghost(unix, t) <= 4294967295)) ==> result1 == nil
 
 //@ spec isDigit(c int) bool = 48 <= c && c <= 57
 //@ spec decval(r bytes, off int, k int) rec int = ite(k <= 0, 0, decval(r, off, k - 1) * 10 + (r[off + k - 1] - 48))
